@@ -300,6 +300,27 @@ def iter_rule(E):
         return (lo, hiv)
     check_paths(E, it, rets, syms, lambda a: (len(sets_of(E, a)), len(sets_of(E, a))), "C20.iter", "C20.iter/size_hint", result_of=sh)
 
+    # the consuming methods, whether they are the trait's defaults (built on next) or overridden: last() is the highest
+    # remaining kind, count() the number of remaining kinds
+    def mkiter_val(st, r):
+        b, s = E.bitsval(st, "it")
+        return [Agg(E.iter_ty["id"], 0, (b,))], ([s], None)
+
+    for root, ref_fn in (("root_set_iter_last", lambda a: (max(sets_of(E, a)) if sets_of(E, a) else None)), ("root_set_iter_count", lambda a: len(sets_of(E, a)))):
+        if root not in P.roots:
+            res.violation("C20.iter", "C20.iter/missing-root/" + root, "harness root %s missing" % root)
+            continue
+        it, rets, (syms, _) = single(E, root, mkiter_val, root)
+
+        def result2(o, env, it=it, root=root):
+            rv = o.outcome[1]
+            if root.endswith("last"):
+                return rv.fields[0].variant if isinstance(rv, Agg) and rv.variant == 1 else None
+            return it.eval_expr(rv, env)
+
+        check_paths(E, it, rets, syms, ref_fn, "C20.iter", "C20.iter/" + root[14:], result_of=result2)
+        res.samples.append({"iterator method": root[14:], "sets_checked": 64})
+
 
 def render_ref(E, s, last_sep):
     names = [KIND_NAMES[k] for k in sorted(s)]
